@@ -283,6 +283,17 @@ func cmdCheck(args []string) int {
 		return 2
 	}
 	solveAll(allQ, workDir, timeoutS, 16)
+	// second chance under low load and with a longer limit: a query that is slow only because sixteen
+	// solvers ran at once must not become an alarm
+	var retry []*Query
+	for _, q := range allQ {
+		if q.Status != "unsat" && q.Status != "trivial" {
+			retry = append(retry, q)
+		}
+	}
+	if len(retry) > 0 && len(retry) <= 64 {
+		solveAll(retry, filepath.Join(workDir, "retry"), timeoutS*3, 4)
+	}
 
 	// vacuity: each function must have at least one reachable return
 	var vacuous []string
